@@ -55,7 +55,7 @@ package keeper
 // SlashAssets is not yet verified against a functional contract: only its frame is used (it runs on the cache context).
 //@ func (*Keeper).SlashAssets
 //@   flag assumed
-//@   modifies state(ctx)
+//@   modifies store(ctx, "assets"), store(ctx, "delegation")
 
 // Slash: a reported failure leaves no trace, and a slash id is executed at most once.
 //@ func (*Keeper).Slash
